@@ -195,6 +195,11 @@ static int filter_assembly_str_fsa(const char unfiltered_str[],
     }
     i++;
   }
+  // blanks behind a line that fills the buffer do not make it longer
+  while (j == MAX_LINE_LEN - 1 && unfiltered_str[i] != '\0' &&
+         (unsigned char)unfiltered_str[i] <= '!' &&
+         unfiltered_str[i] != '\r' && unfiltered_str[i] != '\n')
+    i++;
   // the filtered line must fit (with its terminator) in the caller's buffer
   if (j == MAX_LINE_LEN - 1 && unfiltered_str[i] != ';' &&
       unfiltered_str[i] != '%' && unfiltered_str[i] != '\r' &&
